@@ -40,7 +40,7 @@ ARest == Arg("rest", FALSE, TRUE, TRUE, Short, <<"[\"a\",", "\"b\"]">>)
 ALvl == Arg("lvl", FALSE, FALSE, FALSE, None, <<"3">>)                    \* no description, but a default
 AItem == Arg("item", TRUE, FALSE, TRUE, Short, None)
 AExtra == Arg("extra", FALSE, FALSE, FALSE, None, <<"true">>)
-AMore == Arg("more", FALSE, TRUE, TRUE, Long, None)
+AMore == Arg("more", FALSE, TRUE, TRUE, Long, <<"[\"z\"]">>)                \* multi-valued, a default list of one element
 
 OForce == Opt("force", "f", TRUE, "no", FALSE, TRUE, Short, None)
 ODry == Opt("dry", "", FALSE, "no", FALSE, FALSE, None, None)              \* long name only, no description
@@ -50,7 +50,7 @@ OLevel == Opt("level", "l", TRUE, "opt", FALSE, TRUE, Short, <<"2">>)
 OTag == Opt("tag", "", FALSE, "req", TRUE, TRUE, Short, <<"[\"a\",", "\"b\"]">>)
 ORate == Opt("rate", "", FALSE, "req", FALSE, FALSE, None, <<"1.5">>)      \* no description, but a default
 OKeep == Opt("keep", "k", TRUE, "no", FALSE, TRUE, Long, None)
-OSize == Opt("size", "s", TRUE, "req", TRUE, FALSE, None, None)
+OSize == Opt("size", "s", TRUE, "req", TRUE, FALSE, None, <<"[7]">>)                 \* ... and an option with one
 OHelp == Opt("help", "h", TRUE, "no", FALSE, TRUE, <<"Display", "this", "help", "message">>, None)
 OConf == Opt("conf", "c", TRUE, "req", FALSE, TRUE, Short, <<"\"app.ini\"">>)
 OVerb == Opt("verbose", "", FALSE, "opt", FALSE, FALSE, None, None)
